@@ -217,6 +217,138 @@ func runDialFailure(c *rt.Case, variant int) {
 	c.Key("dial-failure|%d", variant)
 }
 
+// runShutdownSockets: the real accept loop. Gateway.ListenAndServe on loopback UDP with a fake TCP
+// broker, several connected peers (some asleep), then the gateway's context is cancelled.
+func runShutdownSockets(c *rt.Case, variant int) {
+	dialMu.Lock()
+	defer dialMu.Unlock()
+	br, err := newFakeBroker()
+	if err != nil {
+		c.Inconclusive("no loopback TCP")
+		return
+	}
+	defer br.close()
+	port, err := freeUDPPort()
+	if err != nil {
+		c.Inconclusive("no loopback UDP")
+		return
+	}
+	addr := fmt.Sprintf("127.0.0.1:%d", port)
+	gw := gateway.NewGateway(util.NoOpLogger{}, &gateway.GatewayConfig{MqttBrokerAddress: br.ln.Addr().(*net.TCPAddr), MqttConnectionTimeout: 2 * time.Second,
+		PredefinedTopics: topics.PredefinedTopics{}, RetryDelay: time.Second, RetryCount: 1})
+	ctx, cancel := context.WithCancel(context.Background())
+	defer cancel()
+	before := countHandlerGoroutines()
+	served := make(chan error, 1)
+	var servedAt time.Time
+	go func() { err := gw.ListenAndServe(ctx, addr); servedAt = time.Now(); served <- err }()
+	time.Sleep(100 * time.Millisecond)
+	nPeers := 2 + variant*2
+	type peer struct {
+		conn   net.Conn
+		asleep bool
+		got    chan *snref.Pkt
+	}
+	var peers []*peer
+	for i := 0; i < nPeers; i++ {
+		conn, err := net.Dial("udp", addr)
+		if err != nil {
+			c.Inconclusive("cannot dial the gateway")
+			return
+		}
+		p := &peer{conn: conn, asleep: i%2 == 1, got: make(chan *snref.Pkt, 32)}
+		peers = append(peers, p)
+		go func() {
+			buf := make([]byte, 2048)
+			for {
+				n, err := conn.Read(buf)
+				if err != nil {
+					close(p.got)
+					return
+				}
+				if q, _ := snref.ParseLoose(append([]byte(nil), buf[:n]...)); q != nil {
+					p.got <- q
+				}
+			}
+		}()
+		wait := func(ty byte) bool {
+			for {
+				select {
+				case q, ok := <-p.got:
+					if !ok {
+						return false
+					}
+					if q.Type == ty {
+						return true
+					}
+				case <-time.After(2 * time.Second):
+					return false
+				}
+			}
+		}
+		conn.Write(snref.Connect(fmt.Sprintf("p%d", i), 30, false, true).Encode())
+		if !wait(snref.CONNACK) {
+			c.Inconclusive("no CONNACK within 2 s")
+			return
+		}
+		if p.asleep {
+			conn.Write(snref.Sleep(60).Encode())
+			if !wait(snref.DISCONNECT) {
+				c.Inconclusive("no reply to the sleep request within 2 s")
+				return
+			}
+		}
+	}
+	t0 := time.Now()
+	cancel()
+	// every active peer is told; sleeping peers are not
+	for i, p := range peers {
+		gotDisc := false
+		deadline := time.After(time.Second)
+	loop:
+		for {
+			select {
+			case q, ok := <-p.got:
+				if !ok {
+					break loop
+				}
+				if q.Type == snref.DISCONNECT {
+					gotDisc = true
+					break loop
+				}
+			case <-deadline:
+				break loop
+			}
+		}
+		if gotDisc == p.asleep {
+			c.Violation(fmt.Sprintf("sockets-shutdown|client-disconnect-notice|asleep=%v", p.asleep), fmt.Sprintf("gateway shutdown: peer %d (asleep=%v) DISCONNECT received=%v", i, p.asleep, gotDisc), nil)
+		}
+		p.conn.Close()
+	}
+	select {
+	case err := <-served:
+		if d := servedAt.Sub(t0); d > 1500*time.Millisecond {
+			c.Violation("sockets-shutdown|listen-and-serve-returns-late", fmt.Sprintf("ListenAndServe returned %v after its context was cancelled (err %v)", d, err), nil)
+		}
+	case <-time.After(5 * time.Second):
+		c.Violation("sockets-shutdown|listen-and-serve-does-not-return", "ListenAndServe still running 5 s after its context was cancelled", nil)
+		return
+	}
+	var leaks []string
+	for k := 0; k < 50; k++ {
+		time.Sleep(20 * time.Millisecond)
+		leaks = handlerGoroutines()
+		if len(leaks) <= before {
+			break
+		}
+	}
+	if len(leaks) > before {
+		c.Violation("sockets-shutdown|goroutine-leak|"+leakSite(leaks[len(leaks)-1]), fmt.Sprintf("%d session goroutine(s) still alive 1 s after the gateway was shut down", len(leaks)-before), map[string]interface{}{"stacks": leaks})
+	}
+	c.R.Count("socket_shutdown_peers", nPeers)
+	c.Key("sockets-shutdown|%d", nPeers)
+}
+
 func countHandlerGoroutines() int { return len(handlerGoroutines()) }
 
 // handlerGoroutines returns stacks of goroutines outside any bubble that are inside the gateway session handler.
@@ -247,15 +379,23 @@ func TestC13(t *testing.T) {
 	leakIsViolation = "C13"
 	nTerm := len(termCases())
 	nDial := 3
+	nShut := 3
 	reps := r.N(1, 4)
-	total := nTerm*reps + nDial
+	total := nTerm*reps + nDial + nShut
 	r.Each(t, total, 0, func(i int) string {
+		if i >= nTerm*reps+nDial {
+			return fmt.Sprintf("real-socket gateway shutdown#%d", i-nTerm*reps-nDial)
+		}
 		if i >= nTerm*reps {
 			return fmt.Sprintf("dial-failure#%d", i-nTerm*reps)
 		}
 		tc := termCases()[i%nTerm]
 		return fmt.Sprintf("%s/cut=%d/%s rep %d", baseHistories()[tc.h].name, tc.cut, tc.cause, i/nTerm)
 	}, func(t *testing.T, c *rt.Case) {
+		if c.I >= nTerm*reps+nDial {
+			runShutdownSockets(c, c.I-nTerm*reps-nDial)
+			return
+		}
 		if c.I >= nTerm*reps {
 			runDialFailure(c, c.I-nTerm*reps)
 			return
@@ -273,7 +413,7 @@ func TestC13(t *testing.T) {
 			r.Sample(map[string]interface{}{"case": g.Desc, "script": g.Script, "trace_tail": world.Strings(g.Evs[max0(len(g.Evs)-12):], 0)})
 		}
 	})
-	r.Finish(fmt.Sprintf("%d cases = 7 base histories (connect+traffic; will+auth; broker publishes QoS 0/1/2 in flight incl. pending registration with a client that does not acknowledge; client publish/subscribe unacknowledged by the broker; asleep with sleep pinger; asleep-short then awake then reconnected; half-open connect) x every step index x 8 termination causes (gateway shutdown, client plain DISCONNECT, broker closes, broker sends reserved-type garbage, broker sends a SUBSCRIBE, undecodable datagram, truncated datagram, unhandled packet type), each followed by 130 virtual seconds; + 3 real-socket cases of the dial-failure path (closed loopback port). Oracle: handler returns within one 100 ms poll interval of the cause; broker link closed by then; DISCONNECT to the client exactly when the wire-derived client state is active/awake and the client did not disconnect itself (the phase after a wake-up's PINGRESP is don't-care); at quiescence after teardown no goroutine of the bubble (resp. of the process, for the dial cases) is inside bisquitt code. exhaustive for the stated case list.", nTerm), nil)
+	r.Finish(fmt.Sprintf("%d cases = 7 base histories (connect+traffic; will+auth; broker publishes QoS 0/1/2 in flight incl. pending registration with a client that does not acknowledge; client publish/subscribe unacknowledged by the broker; asleep with sleep pinger; asleep-short then awake then reconnected; half-open connect) x every step index x 8 termination causes (gateway shutdown, client plain DISCONNECT, broker closes, broker sends reserved-type garbage, broker sends a SUBSCRIBE, undecodable datagram, truncated datagram, unhandled packet type), each followed by 130 virtual seconds; + 3 real-socket cases of the dial-failure path (closed loopback port) + 3 real-socket cases of whole-gateway shutdown (ListenAndServe on loopback UDP with 2/4/6 peers, every second one asleep; context cancelled: active peers get DISCONNECT, sleeping ones nothing, ListenAndServe returns, no session goroutine is left). Oracle: handler returns within one 100 ms poll interval of the cause; broker link closed by then; DISCONNECT to the client exactly when the wire-derived client state is active/awake and the client did not disconnect itself (the phase after a wake-up's PINGRESP is don't-care); at quiescence after teardown no goroutine of the bubble (resp. of the process, for the dial cases) is inside bisquitt code. exhaustive for the stated case list.", nTerm), nil)
 }
 
 func max0(a int) int {
